@@ -384,13 +384,146 @@ def mk_path_order(lens):
     return PathOrder(lens)
 
 
+# ------------------------------------------------------------------ inline bodies of operations under path reordering
+BODY_KINDS = ["array_of_objects", "array_of_arrays_of_objects", "object", "array_of_strings", "object_with_array_property"]
+
+
+def _describe(sch, depth=0):
+    if sch is None or depth > 3:
+        return None
+    props = sorted(str(c07._simp(k)) for k in (sch.properties or {}).keys())
+    return (sch.name, sch.type, props, _describe(sch.items, depth + 1))
+
+
+def k_path_bodies(P, ids, kind, where, order):
+    """one operation per path, each with an inline success body (where='response') or request body (where='request') of
+    the same shape but its own property name -> per operation the description of its body schema (name, type, property
+    names, items...) and the registry of named schemas (name -> type, property names)"""
+    from importlib import import_module
+
+    ops_mod = import_module(P.__name__ + ".core.loader.operations")
+    ctx_mod = import_module(P.__name__ + ".core.parsing.context")
+    D = hook.SDict if c07._inst(P) else dict
+
+    def body(i):
+        o = D(type="object", properties=D({"f%d" % i: D(type="string")}))
+        return {"array_of_objects": lambda: D(type="array", items=o), "array_of_arrays_of_objects": lambda: D(type="array", items=D(type="array", items=o)),
+                "object": lambda: o, "array_of_strings": lambda: D(type="array", items=D(type="string")),
+                "object_with_array_property": lambda: D(type="object", properties=D({"rows%d" % i: D(type="array", items=o)}))}[kind]()
+
+    paths = D()
+    names = ["/p%d" % i for i in range(len(ids))]
+    for i in order:
+        op = D(operationId=ids[i])
+        if where == "response":
+            op["responses"] = D({"200": D(description="ok", content=D({"application/json": D(schema=body(i))}))})
+        else:
+            op["requestBody"] = D(required=True, content=D({"application/json": D(schema=body(i))}))
+            op["responses"] = c07.OK_RESP
+        paths[names[i]] = D(post=op)
+    ctx = ctx_mod.ParsingContext()
+    ops = ops_mod.parse_operations(paths, D(), D(), D(), ctx)
+    out = []
+    for n in names:
+        hit = [o for o in ops if o.path == n]
+        if len(hit) != 1:
+            out.append(None)
+            continue
+        if where == "response":
+            schs = [sc for r in hit[0].responses for sc in r.content.values()]
+        else:
+            schs = list(hit[0].request_body.content.values()) if hit[0].request_body else []
+        out.append([_describe(x) for x in schs])
+    reg = [(k, v.type, sorted(str(c07._simp(q)) for q in (v.properties or {}).keys())) for k, v in ctx.parsed_schemas.items()]
+    return (out, reg)
+
+
+def _deep_eq(x, y):
+    if isinstance(x, (list, tuple)) and isinstance(y, (list, tuple)):
+        return len(x) == len(y) and all(_deep_eq(u, v) for u, v in zip(x, y))
+    if x is None or y is None or isinstance(x, (int, bool)) or isinstance(y, (int, bool)):
+        return x is y or x == y
+    if isinstance(x, (list, tuple)) or isinstance(y, (list, tuple)):
+        return False
+    return len(x) == len(y) and bool(x == y)
+
+
+class PathBodies(Obligation):
+    """Reordering `paths` changes neither the model an operation's inline body refers to (name AND fields) nor the
+    registry of named schemas."""
+
+    functions = ["pyopenapi_gen.core.loader.operations.parser:parse_operations", "pyopenapi_gen.core.loader.responses.parser:parse_response",
+                 "pyopenapi_gen.core.loader.operations.request_body:parse_request_body", "pyopenapi_gen.core.loader.operations.post_processor:post_process_operation",
+                 "pyopenapi_gen.core.parsing.schema_parser:_parse_schema"]
+
+    def __init__(self, where, lens):
+        self.where, self.lens = where, tuple(lens)
+        self.name = "path_bodies/%s/lens=%s" % (where, "x".join(map(str, lens)))
+        self.bounds = {"paths": len(lens), "operationId_lengths": list(lens), "inline body shape": BODY_KINDS, "body of": where,
+                       "orders": "all permutations compared with the declaration order"}
+        self.perms = list(itertools.permutations(range(len(lens))))
+
+    def make_inputs(self, e):
+        from symx.core import mk_sym_str, ranges_of_pts
+
+        alpha = ranges_of_pts([ord(c) for c in "abAB12"])
+        inp = {"id%d" % i: mk_sym_str(n, "id%d" % i, alpha) for i, n in enumerate(self.lens)}
+        for i in range(len(self.lens)):
+            for j in range(i + 1, len(self.lens)):
+                if self.lens[i] == self.lens[j]:
+                    e.assume(s_not(inp["id%d" % i].lower() == inp["id%d" % j].lower()))
+        inp["kind"] = BODY_KINDS[e.choose(len(BODY_KINDS), "kind")]
+        inp["order"] = 1 + e.choose(len(self.perms) - 1, "order")
+        return inp
+
+    def _run(self, P, inp):
+        ids = [inp["id%d" % i] for i in range(len(self.lens))]
+        return (call_catching(k_path_bodies, P, ids, inp["kind"], self.where, self.perms[0]), call_catching(k_path_bodies, P, ids, inp["kind"], self.where, self.perms[inp["order"]]))
+
+    def run_sym(self, inp):
+        return self._run(c07._I(), inp)
+
+    def run_real(self, inp):
+        return self._run(c07._R(), inp)
+
+    def normalise(self, r):
+        def simp(x):
+            if isinstance(x, (list, tuple)):
+                return [simp(v) for v in x]
+            return c07._simp(x)
+
+        return tuple(x if isinstance(x, Raised) else simp(x) for x in r)
+
+    def prop(self, inp, r):
+        a, b = r
+        if isinstance(a, Raised) or isinstance(b, Raised):
+            return isinstance(a, Raised) and isinstance(b, Raised)
+        (oa, ra), (ob_, rb) = a, b
+        if not _deep_eq(oa, ob_):
+            return False
+        if len(ra) != len(rb):
+            return False
+        return all(any(_deep_eq(x, y) for y in rb) for x in ra)
+
+    def describe_violation(self, inp, r):
+        n = self.normalise(r)
+        return "operationIds %r, inline %s body %s: declaration order gives %r ; order %r gives %r" % (
+            [c07._simp(inp["id%d" % i]) for i in range(len(self.lens))], self.where, inp["kind"], n[0], self.perms[inp["order"]], n[1])
+
+
+def mk_path_bodies(where, lens):
+    return PathBodies(where, lens)
+
+
 def specs(tier):
     q = tier == "quick"
-    out = [(MOD, "mk_path_order", ((1, 1),)), (MOD, "mk_scalar", (False,)), (MOD, "mk_scalar", (True,)), (MOD, "mk_resp_order", (2,))]
+    out = [(MOD, "mk_path_order", ((1, 1),)), (MOD, "mk_path_bodies", ("response", (1, 1))), (MOD, "mk_path_bodies", ("request", (1, 1))), (MOD, "mk_scalar", (False,)), (MOD, "mk_scalar", (True,)), (MOD, "mk_resp_order", (2,))]
     if not q:
         out.append((MOD, "mk_resp_order", (3,)))
         out.append((MOD, "mk_path_order", ((2, 1),)))
         out.append((MOD, "mk_path_order", ((1, 1, 1),)))
+        out.append((MOD, "mk_path_bodies", ("response", (2, 1))))
+        out.append((MOD, "mk_path_bodies", ("request", (1, 1, 1))))
     for n in ((1, 2) if q else (1, 2, 3)):
         out.append((MOD, "mk_prop_order", (n,)))
     for t, (n, _, _, _) in c02.TEMPLATES.items():
@@ -428,6 +561,8 @@ def replay(path):
         ob = ScalarTyping(parts[0].endswith("+default"))
     elif parts[0] == "path_order":
         ob = PathOrder([int(x) for x in parts[1].split("=")[1].split("x")])
+    elif parts[0] == "path_bodies":
+        ob = PathBodies(parts[1], [int(x) for x in parts[2].split("=")[1].split("x")])
     elif parts[0] == "response_key_order":
         ob = ResponseOrder(int(parts[1].split("=")[1]))
     elif parts[0] == "property_order":
